@@ -84,7 +84,7 @@ storing it, so their `CalculateInfo.Runtime` stays the empty list (`Quota.runtim
 `setRuntime`).  In runtime mode the limit list is then empty and `LessThanOrEqual` is vacuous. -/
 
 /-- the default quota (group 1 under the root) with max cpu = 4, runtime list never written. -/
-def dqState : State := quotaSet (init 1) 1 rootName (fun d => if d = 0 then some 4 else none) RL.empty
+def dqState : State := quotaSet (init 1) 1 rootName false true (fun d => if d = 0 then some 4 else none) RL.empty
 
 /-- a pod of that quota asking for cpu = 8. -/
 def dqPod : Pod :=
@@ -355,10 +355,10 @@ theorem reserve_admitted_inv (cfg : Cfg) (s : State) (id : Nat) (p : Pod) (hp : 
 theorem release_inv (cp : Bool) (s : State) (q : Quota) (p : Pod) (hp : p ∈ s.pods) (pods' : List Pod)
     (hpods : ∀ x ∈ pods', ∀ d, 0 ≤ val x.req d) (hI : Inv cp s) :
     Inv cp { s with
-      quotas := applyDelta s (pathNames s p.quota) (fun d => -(mreq q p d)) (fun d => if p.np then -(mreq q p d) else 0)
+      quotas := applyDelta s (pathNames s p.quota) (some p.quota) (fun d => -(mreq q p d)) (fun d => if p.np then -(mreq q p d) else 0)
       pods := pods' } := by
   have hm0 := mreq_nonneg q p (hI.reqNonneg p hp)
-  apply inv_applyDelta _ _ _ _ _ _ hpods _ _ hI
+  apply inv_applyDelta _ _ _ _ _ _ _ hpods _ _ hI
   · intro g hg _ hcl d hd m hm
     have := hI.usedLeMax g hg hcl d hd m hm
     have := hm0 d
@@ -442,71 +442,86 @@ theorem setRuntime_inv (cp : Bool) (s : State) (n : Nat) (r : RL) (hI : Inv cp s
     greater value. -/
 def NotLowered (old new : RL) : Prop := ∀ d m', new d = some m' → ∃ m, old d = some m ∧ m ≤ m'
 
-theorem quotaSet_inv (cp : Bool) (s : State) (n parent : Nat) (mx mn : RL) (hn : n ≠ rootName)
-    (hmx : ∀ d v, mx d = some v → 0 ≤ v) (hmn : ∀ d v, mn d = some v → 0 ≤ v)
+theorem quotaMaxMin_inv (cp : Bool) (s : State) (n : Nat) (mx mn : RL) (hn : n ≠ rootName)
     (hnl : ∀ q, findQ s.quotas n = some q → NotLowered q.max mx ∧ NotLowered q.min mn)
-    (hI : Inv cp s) : Inv cp (quotaSet s n parent mx mn) := by
+    (hI : Inv cp s) : Inv cp (quotaMaxMin s n mx mn) := by
+  unfold quotaMaxMin
+  have isq0 : ∀ g ∈ s.quotas, g.name = n → NotLowered g.max mx ∧ NotLowered g.min mn := by
+    intro g hg hgn
+    have := findQ_of_mem hI.nodup hg
+    rw [hgn] at this
+    exact hnl g this
+  apply inv_map cp s _ s.pods _ _ _ _ hI.reqNonneg _ _ hI
+  · intro q; by_cases h : q.name = n <;> simp [h]
+  · intro q; by_cases h : q.name = n <;> simp [h]
+  · intro g hg hr d
+    have : g.name ≠ n := by rw [hr]; exact fun e => hn e.symm
+    simp only [this, if_false]; exact hI.rootMax g hg hr d
+  · intro g hg d; by_cases h : g.name = n <;> simp [h] <;> exact hI.nonneg g hg d
+  · intro g hg hc d hd m hm
+    by_cases h : g.name = n
+    · simp only [h, if_true] at hm ⊢
+      rcases (isq0 g hg h).1 d m hm with ⟨m0, hm0, hle⟩
+      have := hI.usedLeMax g hg hc d hd m0 hm0
+      omega
+    · simp only [h, if_false] at hm ⊢; exact hI.usedLeMax g hg hc d hd m hm
+  · intro g hg hc d hd m hm
+    by_cases h : g.name = n
+    · simp only [h, if_true] at hm ⊢
+      rcases (isq0 g hg h).2 d m hm with ⟨m0, hm0, hle⟩
+      have := hI.npLeMin g hg hc d hd m0 hm0
+      omega
+    · simp only [h, if_false] at hm ⊢; exact hI.npLeMin g hg hc d hd m hm
+
+theorem quotaAdd_inv (cp : Bool) (s : State) (n parent : Nat) (ip l : Bool) (mx mn : RL) (hn : n ≠ rootName)
+    (hmx : ∀ d v, mx d = some v → 0 ≤ v) (hmn : ∀ d v, mn d = some v → 0 ≤ v)
+    (hq : findQ s.quotas n = none) (hI : Inv cp s) : Inv cp (quotaAdd s n parent ip l mx mn) := by
+  unfold quotaAdd
+  have hfresh := findQ_none hq
+  have hsub : ∀ (extra : List Quota) k, IsLeafL (s.quotas ++ extra) k → IsLeafL s.quotas k := by
+    intro extra k h g hg; exact h g (List.mem_append_left _ hg)
+  refine ⟨?_, ?_, ?_, hI.reqNonneg, ?_, ?_⟩
+  · show (List.map (fun q : Quota => q.name) (s.quotas ++ _)).Nodup
+    rw [List.map_append, List.nodup_append]
+    refine ⟨hI.nodup, by simp, ?_⟩
+    intro a ha b hb
+    simp only [List.map_cons, List.map_nil, List.mem_singleton] at hb
+    rcases List.mem_map.mp ha with ⟨g, hg, rfl⟩
+    rw [hb]; exact hfresh g hg
+  · intro g hg hr d
+    rcases List.mem_append.mp hg with h | h
+    · exact hI.rootMax g h hr d
+    · rw [List.mem_singleton.mp h] at hr; exact absurd hr hn
+  · intro g hg d
+    rcases List.mem_append.mp hg with h | h
+    · exact hI.nonneg g h d
+    · rw [List.mem_singleton.mp h]; exact ⟨Int.le_refl _, Int.le_refl _⟩
+  · intro g hg hc d hd m hm
+    rcases List.mem_append.mp hg with h | h
+    · exact hI.usedLeMax g h (hc.imp id (hsub _ _)) d hd m hm
+    · rw [List.mem_singleton.mp h] at hm ⊢; exact hmx d m hm
+  · intro g hg hc d hd m hm
+    rcases List.mem_append.mp hg with h | h
+    · exact hI.npLeMin g h (hsub _ _ hc) d hd m hm
+    · rw [List.mem_singleton.mp h] at hm ⊢; exact hmn d m hm
+
+/-- which `UpdateQuota` events on a known group the closed-loop theorems cover (first disjunct: meta unchanged). -/
+def MetaOK (_cp : Bool) (_s : State) (q : Quota) (parent : Nat) (ip l : Bool) (_mx _mn : RL) : Prop :=
+  q.parent = parent ∧ q.isParent = ip ∧ q.lent = l
+
+theorem quotaSet_inv (cp : Bool) (s : State) (n parent : Nat) (ip l : Bool) (mx mn : RL) (hn : n ≠ rootName)
+    (hmx : ∀ d v, mx d = some v → 0 ≤ v) (hmn : ∀ d v, mn d = some v → 0 ≤ v)
+    (hnl : ∀ q, findQ s.quotas n = some q → NotLowered q.max mx ∧ NotLowered q.min mn ∧ MetaOK cp s q parent ip l mx mn)
+    (hI : Inv cp s) : Inv cp (quotaSet s n parent ip l mx mn) := by
   unfold quotaSet
   cases hq : findQ s.quotas n with
+  | none => exact quotaAdd_inv cp s n parent ip l mx mn hn hmx hmn hq hI
   | some q0 =>
     simp only []
-    have hnl0 := hnl q0 hq
-    have isq0 : ∀ g ∈ s.quotas, g.name = n → g = q0 := by
-      intro g hg hgn
-      have := findQ_of_mem hI.nodup hg
-      rw [hgn, hq] at this; cases this; rfl
-    apply inv_map cp s _ s.pods _ _ _ _ hI.reqNonneg _ _ hI
-    · intro q; by_cases h : q.name = n <;> simp [h]
-    · intro q; by_cases h : q.name = n <;> simp [h]
-    · intro g hg hr d
-      have : g.name ≠ n := by rw [hr]; exact fun e => hn e.symm
-      simp only [this, if_false]; exact hI.rootMax g hg hr d
-    · intro g hg d; by_cases h : g.name = n <;> simp [h] <;> exact hI.nonneg g hg d
-    · intro g hg hc d hd m hm
-      by_cases h : g.name = n
-      · simp only [h, if_true] at hm ⊢
-        have := isq0 g hg h; subst this
-        rcases hnl0.1 d m hm with ⟨m0, hm0, hle⟩
-        have := hI.usedLeMax g hg hc d hd m0 hm0
-        omega
-      · simp only [h, if_false] at hm ⊢; exact hI.usedLeMax g hg hc d hd m hm
-    · intro g hg hc d hd m hm
-      by_cases h : g.name = n
-      · simp only [h, if_true] at hm ⊢
-        have := isq0 g hg h; subst this
-        rcases hnl0.2 d m hm with ⟨m0, hm0, hle⟩
-        have := hI.npLeMin g hg hc d hd m0 hm0
-        omega
-      · simp only [h, if_false] at hm ⊢; exact hI.npLeMin g hg hc d hd m hm
-  | none =>
-    simp only []
-    have hfresh := findQ_none hq
-    have hsub : ∀ (extra : List Quota) k, IsLeafL (s.quotas ++ extra) k → IsLeafL s.quotas k := by
-      intro extra k h g hg; exact h g (List.mem_append_left _ hg)
-    refine ⟨?_, ?_, ?_, hI.reqNonneg, ?_, ?_⟩
-    · show (List.map (fun q : Quota => q.name) (s.quotas ++ _)).Nodup
-      rw [List.map_append, List.nodup_append]
-      refine ⟨hI.nodup, by simp, ?_⟩
-      intro a ha b hb
-      simp only [List.map_cons, List.map_nil, List.mem_singleton] at hb
-      rcases List.mem_map.mp ha with ⟨g, hg, rfl⟩
-      rw [hb]; exact hfresh g hg
-    · intro g hg hr d
-      rcases List.mem_append.mp hg with h | h
-      · exact hI.rootMax g h hr d
-      · rw [List.mem_singleton.mp h] at hr; exact absurd hr hn
-    · intro g hg d
-      rcases List.mem_append.mp hg with h | h
-      · exact hI.nonneg g h d
-      · rw [List.mem_singleton.mp h]; exact ⟨Int.le_refl _, Int.le_refl _⟩
-    · intro g hg hc d hd m hm
-      rcases List.mem_append.mp hg with h | h
-      · exact hI.usedLeMax g h (hc.imp id (hsub _ _)) d hd m hm
-      · rw [List.mem_singleton.mp h] at hm ⊢; exact hmx d m hm
-    · intro g hg hc d hd m hm
-      rcases List.mem_append.mp hg with h | h
-      · exact hI.npLeMin g h (hsub _ _ hc) d hd m hm
-      · rw [List.mem_singleton.mp h] at hm ⊢; exact hmn d m hm
+    have h0 := hnl q0 hq
+    have hm : q0.parent = parent ∧ q0.isParent = ip ∧ q0.lent = l := h0.2.2
+    rw [if_pos hm]
+    exact quotaMaxMin_inv cp s n mx mn hn (fun q hq' => ⟨(hnl q hq').1, (hnl q hq').2.1⟩) hI
 
 /-- history events: a scheduling cycle (PreFilter, then Reserve iff admitted) or any other event. -/
 inductive Ev where
@@ -527,9 +542,9 @@ def runEv (s : State) : Ev → State
     non-negative, and `Reserve` only as part of a cycle. -/
 def EvOK (cp : Bool) (s : State) : Ev → Prop
   | .cycle id cfg => cfg.cp = cp ∧ ∀ p, findP s.pods id = some p → RuntimeOK s cfg p
-  | .ext (.quotaSet n _ mx mn) =>
+  | .ext (.quotaSet n parent ip l mx mn) =>
       n ≠ rootName ∧ (∀ d v, mx d = some v → 0 ≤ v) ∧ (∀ d v, mn d = some v → 0 ≤ v) ∧
-      ∀ q, findQ s.quotas n = some q → NotLowered q.max mx ∧ NotLowered q.min mn
+      ∀ q, findQ s.quotas n = some q → NotLowered q.max mx ∧ NotLowered q.min mn ∧ MetaOK cp s q parent ip l mx mn
   | .ext (.podDef _ _ _ req) => ∀ d, 0 ≤ val req d
   | .ext (.reserve _) => False
   | .ext _ => True
@@ -556,9 +571,9 @@ theorem runEv_inv (cp : Bool) (s : State) (e : Ev) (hI : Inv cp s) (hok : EvOK c
       | unschedulable => exact hI
   | ext op =>
     cases op with
-    | quotaSet n parent mx mn =>
+    | quotaSet n parent ip l mx mn =>
       obtain ⟨h1, h2, h3, h4⟩ := hok
-      exact quotaSet_inv cp s n parent mx mn h1 h2 h3 h4 hI
+      exact quotaSet_inv cp s n parent ip l mx mn h1 h2 h3 h4 hI
     | setRuntime n r => exact setRuntime_inv cp s n r hI
     | podDef id q np req => exact podDef_inv cp s id q np req hok hI
     | podAdd id => exact podAdd_inv cp s id hI
@@ -627,7 +642,7 @@ def exReq (c m : Int) : RL := fun d => if d = 0 then some c else if d = 1 then s
 
 /-- root ← 1 (max 4,8 / min 4,8) ← 2 (max 4,8 / min 2,2); pod 1 (3,1) and pod 2 (2,1) in group 2. -/
 def exEvs : List Ev :=
-  [ .ext (.quotaSet 1 0 exMax exMax), .ext (.quotaSet 2 1 exMax (exReq 2 2)),
+  [ .ext (.quotaSet 1 0 true true exMax exMax), .ext (.quotaSet 2 1 false true exMax (exReq 2 2)),
     .ext (.podDef 1 2 false (exReq 3 1)), .ext (.podAdd 1),
     .ext (.podDef 2 2 false (exReq 2 1)), .ext (.podAdd 2),
     .cycle 1 ⟨false, true⟩, .cycle 2 ⟨false, true⟩ ]
